@@ -28,7 +28,7 @@ def addL {α : Type} [Add α] (a b : List α) : List α := List.zipWith (· + ·
 most significant one) -/
 def allAssign : Nat → List (List Nat)
   | 0 => [[]]
-  | n + 1 => (allAssign n).map (0 :: ·) ++ (allAssign n).map (1 :: ·)
+  | n + 1 => [0, 1].flatMap (fun c => (allAssign n).map (c :: ·))
 
 def choose : Nat → Nat → Nat
   | _, 0 => 1
